@@ -55,3 +55,15 @@ package access
 //@   modifies blockedHostEngine.lazyEngine
 //@   ensures blocked == ((!(inASNs(p.allowedASN, l) || inNets(p.allowedNets, addrOf(rAddr))) &&
 //@             (inASNs(p.blockedASN, l) || inNets(p.blockedNets, addrOf(rAddr)))) || hostRuleBlocked(p.blockedHostsEng, req))
+
+// ---------------------------------------------------------------------------
+// C14 (what a profile's access settings are built from, e.g. when the file
+// cache is read back): a profile made from a configuration has exactly that
+// configuration's networks, ASNs and blocked-name rules.
+//@ func NewDefaultProfile
+//@   property C14 C10
+//@   requires conf != nil
+//@   modifies nothing
+//@   ensures built-from-exactly-this-configuration: p != nil && fresh(p) && p.allowedNets == conf.AllowedNets && p.blockedNets == conf.BlockedNets &&
+//@             p.allowedASN == conf.AllowedASN && p.blockedASN == conf.BlockedASN && p.blocklistDomainRules == conf.BlocklistDomainRules &&
+//@             p.blockedHostsEng != nil && p.blockedHostsEng.rules == conf.BlocklistDomainRules
